@@ -526,12 +526,234 @@ def gen_ops(rng, spec):
 def gen_cases(run):
     n = run.pick(1300, 20000)
     for i in range(n):
+        if i % 16 == 5:
+            yield {'i': i, 'kind': 'cascade'}
+        if i % 16 == 11:
+            yield {'i': i, 'kind': 'wmsc2'}
         yield {'i': i}
+
+
+# ---- two small families outside the single-tile histories ---------------------------------------------------------------
+
+_WORLD = [-20037508.342789244, -20037508.342789244, 20037508.342789244, 20037508.342789244]
+
+
+def _png(size, colour, left_transparent=False):
+    import io as _io
+    from PIL import Image
+    im = Image.new('RGBA', size, tuple(colour) + (255,))
+    if left_transparent:
+        im.paste((0, 0, 0, 0), (0, 0, size[0] // 2, size[1]))
+    im.putpixel((size[0] - 2, size[1] - 2), (9, 9, 9, 255))       # never single coloured
+    b = _io.BytesIO()
+    im.save(b, 'PNG')
+    return b.getvalue()
+
+
+def _hdr(r, name):
+    return r.header(name)
+
+
+def _cache_control(r):
+    return ','.join(v for k, v in r.headers if k.lower() == 'cache-control').lower()
+
+
+def _tile_files(root):
+    out = []
+    for rt, _, fs in os.walk(root):
+        for f in fs:
+            if f.endswith('.png') or f.endswith('.jpeg'):
+                out.append(os.path.join(rt, f))
+    return out
+
+
+def run_cascade(run, case, d):
+    """a cache fed by another cache (same SRS and resolutions, other tile size: tiles are cut out of the inner cache's tiles
+    without resampling). While the upstream fails, the inner source answers with its on_error fill image (cache: false):
+    that image must not be stored in either cache and must be sent with no-store by every tile service."""
+    rng = run.rng('cascade', case['i'])
+    inner_src = rng.choice(['tile', 'tile', 'wms'])
+    svc = rng.choice(['tiles', 'tms', 'wmts_rest', 'wmts_kvp', 'kml'])
+    state = {'fail': True, 'epoch': 0}
+    up = upstream.install()
+    up.faults.clear()
+
+    def handler(call):
+        if state['fail']:
+            return upstream.Resp(b'upstream broken', 'text/plain', 500)
+        if call.kind == 'getmap':
+            try:
+                size = (int(call.params.get('width', 128)), int(call.params.get('height', 128)))
+            except ValueError:
+                size = (128, 128)
+        else:
+            size = (128, 128)
+        return upstream.Resp(_png((max(1, min(size[0], 2048)), max(1, min(size[1], 2048))), (20, 160, 60 + 40 * state['epoch'])), 'image/png')
+    up.register('casc', handler)
+    res = [(_WORLD[2] - _WORLD[0]) / 64 / 2 ** z for z in range(5)]
+    conf = scenario.base_conf()
+    conf['grids']['g'] = {'srs': 'EPSG:3857', 'bbox': list(_WORLD), 'tile_size': [64, 64], 'res': res, 'origin': 'll'}
+    conf['grids']['gi'] = {'srs': 'EPSG:3857', 'bbox': list(_WORLD), 'tile_size': [128, 128], 'res': res, 'origin': 'll'}
+    on_error = {500: {'response': '#ff0000', 'cache': False}}
+    if inner_src == 'tile':
+        conf['sources']['src'] = {'type': 'tile', 'url': 'http://casc/t/%(z)s/%(x)s/%(y)s.png', 'grid': 'gi', 'on_error': on_error}
+    else:
+        conf['sources']['src'] = {'type': 'wms', 'req': {'url': 'http://casc/service?', 'layers': 'a'}, 'supported_srs': ['EPSG:3857'],
+                                  'on_error': on_error}
+    conf['caches']['ci'] = {'grids': ['gi'], 'sources': ['src'], 'format': 'image/png', 'request_format': 'image/png',
+                            'meta_size': [1, 1] if inner_src == 'tile' else rng.choice([[1, 1], [2, 2]]), 'meta_buffer': 0}
+    conf['caches']['c'] = {'grids': ['g'], 'sources': ['ci'], 'format': 'image/png', 'request_format': 'image/png',
+                           'meta_size': rng.choice([[1, 1], [2, 2]]), 'meta_buffer': 0}
+    conf['layers'] = [{'name': 'l', 'title': 'l', 'sources': ['c']}]
+    conf['services'] = {'tms': {'use_grid_names': True}, 'kml': {'use_grid_names': True}, 'wmts': {'restful': True, 'kvp': True}}
+    sc = scenario.Scenario(d, conf)
+    z = rng.randint(2, 4)
+    n = 2 ** (z + 1)            # level z has 2**(z+1) x 2**(z+1) tiles of 64 px ... res[0] = world/64/1 -> 1 tile... see below
+    nx, ny = sc.grid('g').grid_sizes[z]
+    x, y = rng.randrange(nx), rng.randrange(ny)
+    rows = ny - 1 - y           # row counted from the top
+    url = {'tiles': '/tiles/l/g/%d/%d/%d.png' % (z, x, y), 'tms': '/tms/1.0.0/l/g/%d/%d/%d.png' % (z, x, y),
+           'kml': '/kml/l/g/%d/%d/%d.png' % (z, x, y), 'wmts_rest': '/wmts/l/g/%02d/%d/%d.png' % (z, x, rows),
+           'wmts_kvp': '/service?SERVICE=WMTS&VERSION=1.0.0&REQUEST=GetTile&LAYER=l&STYLE=&TILEMATRIXSET=g&TILEMATRIX=%02d&TILEROW=%d&'
+                       'TILECOL=%d&FORMAT=image/png' % (z, rows, x)}[svc]
+    mech0 = {'mode': 'cascade', 'inner_source': inner_src, 'service': FAMILY.get(svc, svc)}
+    hist = []
+    croot = os.path.join(d, 'cache_data')
+
+    def bad(clause, detail):
+        run.violation(dict(mech0, clause=clause), case, 'cache fed by a cache (inner source %s, via %s): %s | history: %s' % (
+            inner_src, svc, detail, ' ; '.join(hist)))
+    # 1) upstream failing: fill image, uncacheable everywhere
+    r = sc.get(url)
+    cc = _cache_control(r)
+    hist.append('upstream 500: %s -> %d %s Cache-Control=%r ETag=%r, %d tile files stored' % (url, r.code, r.content_type, cc, _hdr(r, 'ETag'), len(_tile_files(croot))))
+    run.judge(('cascade', inner_src, svc, 'fill'), nontrivial=True)
+    run.hit('uncacheable_tiles_checked')
+    run.hit('cascade_fill_responses_checked')
+    if r.code != 200 or not r.content_type.startswith('image/'):
+        run.dc('cascade_fill_not_served_%s' % r.code)
+        return
+    px = r.image().convert('RGB').getpixel((5, 5))
+    if px != (255, 0, 0):
+        run.dc('cascade_fill_image_not_the_configured_colour')
+        return
+    if 'no-store' not in cc:
+        bad('uncacheable_headers', 'error fill image (on_error ... cache: false on the inner source) sent without no-store: Cache-Control=%r '
+            'ETag=%r Last-Modified=%r' % (cc, _hdr(r, 'ETag'), _hdr(r, 'Last-Modified')))
+        return
+    stored = _tile_files(croot)
+    if stored:
+        bad('uncacheable_tile_stored', 'the fill image was stored: %r' % ([os.path.relpath(p_, croot) for p_ in stored[:4]],))
+        return
+    # 2) upstream healthy: real content, cacheable, stable validators
+    state['fail'] = False
+    r2 = sc.get(url)
+    hist.append('upstream ok: -> %d Cache-Control=%r ETag=%r' % (r2.code, _cache_control(r2), _hdr(r2, 'ETag')))
+    if r2.code != 200:
+        bad('repeat_status', 'healthy upstream, answered %d %r' % (r2.code, r2.body[:200]))
+        return
+    if r2.image().convert('RGB').getpixel((5, 5)) == (255, 0, 0):
+        bad('fill_image_served_after_recovery', 'the upstream recovered but the red fill image is still served')
+        return
+    r3 = sc.get(url)
+    r4 = sc.get(url)
+    run.hit('repeat_pairs_compared')
+    if (_hdr(r3, 'ETag'), _hdr(r3, 'Last-Modified'), r3.body) != (_hdr(r4, 'ETag'), _hdr(r4, 'Last-Modified'), r4.body):
+        bad('repeat_differs', 'two requests for the stored tile differ: ETag %r/%r Last-Modified %r/%r body equal %s' % (
+            _hdr(r3, 'ETag'), _hdr(r4, 'ETag'), _hdr(r3, 'Last-Modified'), _hdr(r4, 'Last-Modified'), r3.body == r4.body))
+        return
+    run.hit('cascade_histories')
+
+
+def run_wmsc2(run, case, d):
+    """WMS-C request for two cached layers: the answer is composed of one tile of each cache. Whatever validators it carries
+    must not let a client keep the old picture after the BOTTOM tile was rewritten."""
+    rng = run.rng('wmsc2', case['i'])
+    state = {'bottom': 0, 'top': 0}
+    up = upstream.install()
+    up.faults.clear()
+
+    def mk(which, transparent):
+        def handler(call):
+            try:
+                size = (int(call.params.get('width', 64)), int(call.params.get('height', 64)))
+            except ValueError:
+                size = (64, 64)
+            e = state[which]
+            col = (30 + 50 * e, 90, 200) if which == 'bottom' else (230, 200 - 60 * e, 20)
+            return upstream.Resp(_png((max(1, min(size[0], 1024)), max(1, min(size[1], 1024))), col, left_transparent=transparent), 'image/png')
+        return handler
+    up.register('wbottom', mk('bottom', False))
+    up.register('wtop', mk('top', True))
+    backend = rng.choice(['file', 'sqlite'])
+    conf = scenario.base_conf()
+    conf['grids']['g'] = {'srs': 'EPSG:3857', 'bbox': list(_WORLD), 'tile_size': [64, 64], 'num_levels': 5, 'origin': 'll'}
+    for nm, host, tr in (('bottom', 'wbottom', False), ('top', 'wtop', True)):
+        conf['sources']['s_' + nm] = {'type': 'wms', 'req': {'url': 'http://%s/service?' % host, 'layers': 'a', 'transparent': tr},
+                                      'supported_srs': ['EPSG:3857']}
+        conf['caches']['c_' + nm] = {'grids': ['g'], 'sources': ['s_' + nm], 'format': 'image/png', 'request_format': 'image/png',
+                                     'meta_size': [1, 1], 'meta_buffer': 0,
+                                     'cache': {'type': 'sqlite'} if backend == 'sqlite' else {'type': 'file', 'directory_layout': 'tc'}}
+        conf['layers'].append({'name': nm, 'title': nm, 'sources': ['c_' + nm]})
+    conf['services'] = {'wms': {'srs': ['EPSG:3857'], 'image_formats': ['image/png'], 'md': {'title': 't'}}, 'tms': {}}
+    sc = scenario.Scenario(d, conf)
+    grid = sc.grid('g')
+    z = rng.randint(1, 3)
+    nx, ny = grid.grid_sizes[z]
+    x, y = rng.randrange(nx), rng.randrange(ny)
+    bb = grid.tile_bbox((x, y, z))
+    url = ('/service?SERVICE=WMS&VERSION=1.1.1&REQUEST=GetMap&LAYERS=bottom,top&STYLES=&SRS=EPSG:3857&BBOX=%s&WIDTH=64&HEIGHT=64&'
+           'FORMAT=image/png&TRANSPARENT=TRUE&TILED=true' % ','.join(repr(float(v)) for v in bb))
+    hist = []
+    mech0 = {'mode': 'wmsc_two_layers', 'backend': backend}
+    r1 = sc.get(url)
+    if r1.code != 200:
+        run.dc('wmsc_two_layer_request_refused_%d' % r1.code)
+        return
+    e1, lm1 = _hdr(r1, 'ETag'), _hdr(r1, 'Last-Modified')
+    hist.append('two-layer WMS-C tile -> 200 ETag=%r Last-Modified=%r' % (e1, lm1))
+    run.hit('wmsc_two_layer_histories')
+    run.judge(('wmsc2', backend, bool(e1), bool(lm1)), nontrivial=True)
+    # rewrite the bottom tile (remove it, new epoch, request again); the top tile stays
+    from mapproxy.cache.tile import Tile
+    state['bottom'] += 1
+    which = rng.choice(['bottom', 'bottom', 'top'])
+    if which == 'top':
+        state['bottom'] -= 1
+        state['top'] += 1
+    tm = sc.tile_manager('c_' + which)
+    tm.cache.remove_tile(Tile((x, y, z)))
+    if lm1:
+        time.sleep(1.1)       # whole-second validators: the rewrite is later than Last-Modified by the clock, too
+    r2 = sc.get(url)
+    hist.append('%s tile rewritten -> %d ETag=%r body changed %s' % (which, r2.code, _hdr(r2, 'ETag'), r2.body != r1.body))
+    if r2.code != 200 or r2.body == r1.body:
+        run.dc('wmsc_two_layer_rewrite_not_visible')
+        return
+    for name, hv in (('If-None-Match', e1), ('If-Modified-Since', lm1)):
+        if not hv:
+            continue
+        rc = sc.get(url, headers={name: hv})
+        run.hit('unjustified_304_checks')
+        hist.append('%s: %s -> %d' % (name, hv, rc.code))
+        if rc.code == 304:
+            run.violation(dict(mech0, clause='304_content_changed', header=name, rewritten=which), case,
+                          'two-layer WMS-C tile: the %s tile was rewritten (the composed picture changed), a request with the old %s %r is '
+                          'answered 304 | history: %s' % (which, name, hv, ' ; '.join(hist)))
+            return
 
 
 # ---- one history ----------------------------------------------------------------------------------------------------------
 
 def run_case(run, case):
+    if case.get('kind') in ('cascade', 'wmsc2'):
+        d = run.subdir('c20x')
+        try:
+            (run_cascade if case['kind'] == 'cascade' else run_wmsc2)(run, case, d)
+        finally:
+            upstream.install().faults.clear()
+            shutil.rmtree(d, ignore_errors=True)
+        return
     rng = run.rng('case', case['i'])
     spec = case.get('spec') or gen_spec(rng)
     ops = case.get('ops') or gen_ops(rng, spec)
